@@ -69,10 +69,24 @@ func (c *c05) build(seed uint64, tier string) {
 		return
 	}
 	c.key, c.pairs, c.batches = key, nil, nil
-	for _, in := range c05Inputs() {
+	for ii, in := range c05Inputs() {
 		n := len(in.Bytes())
 		seen := map[uint32]bool{}
 		ls := []int{0, 1, 2, n - 1, n, n + 1, 64, 3072, 2 * n}
+		// limits far above the input: buffer strategies that depend on the limit's magnitude
+		switch ii % 6 {
+		case 1:
+			ls = append(ls, 1<<20+1)
+		case 3:
+			ls = append(ls, 1<<24+1)
+		case 5:
+			if n <= 64 {
+				ls = append(ls, 1<<27+3)
+			}
+		}
+		if in.Fam == "text" && n == 2 && tier == "thorough" {
+			ls = append(ls, 1<<31)
+		}
 		// powers of two and their neighbours that fall inside the input: block-wise readers
 		for _, b := range []int{512, 1024, 4096, 65536} {
 			for _, l := range []int{b - 1, b, b + 1} {
@@ -98,7 +112,19 @@ func (c *c05) build(seed uint64, tier string) {
 		}
 		// offsets 0..m inclusive; beyond-the-header offsets m+1.. are sampled: they must never surface
 		var offs []int
-		if (tier == "thorough" && m <= 8192) || m <= 700 {
+		if p.L > 1<<20 && m > 8 {
+			// a limit-sized allocation per call is costly up here: head, tail and a few offsets in between
+			r := core.NewRand(core.Mix(seed, 0xb16c05, uint64(pi)))
+			pick := map[int]bool{0: true, 1: true, m - 1: true, m: true}
+			for i := 0; i < 5; i++ {
+				pick[r.Range(2, m-1)] = true
+			}
+			for k := 0; k <= m; k++ {
+				if pick[k] {
+					offs = append(offs, k)
+				}
+			}
+		} else if (tier == "thorough" && m <= 8192) || m <= 700 {
 			for k := 0; k <= m; k++ {
 				offs = append(offs, k)
 			}
@@ -225,6 +251,10 @@ func schedClass(d *simio.Delivery) int {
 func (c *c05) Plan(seed uint64, tier string, worker, workers, idx int) *Plan {
 	c.build(seed, tier)
 	bi := worker + idx*workers
+	if idx >= 10000000 && len(c.batches) > 0 {
+		// process-per-run phase: a seeded sample of the batches, each in a process of its own
+		bi = int(core.Mix(seed, 0x150c05, uint64(worker), uint64(idx)) % uint64(len(c.batches)))
+	}
 	if bi >= len(c.batches) {
 		return nil
 	}
@@ -268,6 +298,10 @@ func (c *c05) Plan(seed uint64, tier string, worker, workers, idx int) *Plan {
 			}
 		}
 		if k < 0 {
+			// files whose Stat size is not the number of bytes they deliver
+			ops = append(ops, Op{Kind: "file", In: &in, StatSize: 1})
+			ops = append(ops, Op{Kind: "file", In: &in, StatSize: 1 + n/2, Del: c05Delivery(r, r.Intn(5), -1, false)})
+			ops = append(ops, Op{Kind: "reader", Wrap: "osfile", In: &in, StatSize: 1 + r.Intn(n+1)})
 			for _, wr := range stdWraps {
 				ops = append(ops, Op{Kind: "reader", In: &in, Wrap: wr})
 			}
@@ -276,7 +310,7 @@ func (c *c05) Plan(seed uint64, tier string, worker, workers, idx int) *Plan {
 		}
 	}
 	if b.first {
-		for _, fk := range []string{"enoent", "eacces", "dir", "real", "real-missing", "real-dir"} {
+		for _, fk := range []string{"enoent", "eacces", "dir", "real", "real-missing", "real-dir", "real-proc"} {
 			ops = append(ops, Op{Kind: "file", In: &in, FileKind: fk})
 		}
 	}
@@ -284,9 +318,22 @@ func (c *c05) Plan(seed uint64, tier string, worker, workers, idx int) *Plan {
 	if r.Chance(1, 3) && len(ops) > 2 {
 		other := c.pairs[r.Intn(len(c.pairs))]
 		at := r.Range(1, len(ops)-1)
+		mid := Op{Kind: "reader", In: &other.In, Del: c05Delivery(r, r.Intn(5), -1, false)}
+		switch r.Intn(4) {
+		case 0:
+			mid.Kind = "file"
+		case 1:
+			mid.Wrap = streamWraps[r.Intn(len(streamWraps))]
+		case 2:
+			// a failing call in between
+			mid.Del = c05Delivery(r, r.Intn(5), r.Range(0, len(other.In.Bytes())), r.Chance(1, 2))
+			if r.Chance(1, 2) {
+				mid.Kind = "file"
+			}
+		}
 		inter := []Op{
 			{Kind: "setlimit", Limit: other.L},
-			{Kind: "reader", In: &other.In, Del: c05Delivery(r, r.Intn(5), -1, false)},
+			mid,
 			{Kind: "setlimit", Limit: pair.L},
 		}
 		ops = append(ops[:at:at], append(inter, ops[at:]...)...)
@@ -372,6 +419,17 @@ func (c *c05) Check(rr *RunResult, st *Stats) []Failure {
 			}
 			st.Fault("read_eisdir")
 			st.Mark(hashStr(fmt.Sprintf("%s|%d|%s", *op.In, limit, op.FileKind)))
+			continue
+		case "real-proc":
+			if x == nil {
+				st.Probe("procfs_unavailable")
+				continue
+			}
+			st.Probe("procfs_file_detected")
+			want := lib.B(x, limit)
+			if !res.ErrNil || res.R.Key() != want.Key() {
+				bad("mismatch", "%s (Stat reports size 0) reported %s err=%q, Detect on the %d bytes it contains reports %s", "/proc/version", res.R.Key(), res.ErrText, n, want.Key())
+			}
 			continue
 		case "real":
 			st.Probe("real_file_detected")
@@ -507,7 +565,7 @@ func (c *c05) Check(rr *RunResult, st *Stats) []Failure {
 		if (res.Stream != nil && res.Stream.Faulted) || cls != 0 {
 			st.Mark(hashStr(fmt.Sprintf("%s|%d|%s|%d|%v|%d", *op.In, limit, entry, k, d.FaultWithData, cls)))
 		}
-		if k >= 0 && reach {
+		if k >= 0 && reach && res.Stream != nil {
 			st.Sample(map[string]any{"input": op.In.String(), "len": n, "limit": limit, "entry": entry, "delivery": d,
 				"reader_calls": res.Stream.Calls, "bytes_handed": consumed, "result": res.R.Key(), "err": res.ErrText}, 6)
 		}
